@@ -94,13 +94,18 @@ impl<'tcx> Cx<'tcx> {
                 break;
             }
             let data = s.ctxt().outer_expn_data();
-            match data.macro_def_id {
-                Some(d) => {
-                    if !d.is_local() {
-                        return true;
+            match data.kind {
+                // `?`, `for`, `while let`, async desugarings are the user's own control flow
+                rustc_span::ExpnKind::Desugaring(_) | rustc_span::ExpnKind::AstPass(_) => {}
+                rustc_span::ExpnKind::Root => break,
+                rustc_span::ExpnKind::Macro(..) => match data.macro_def_id {
+                    Some(d) => {
+                        if !d.is_local() {
+                            return true;
+                        }
                     }
-                }
-                None => return true, // desugaring / builtin
+                    None => return true, // builtin macro
+                },
             }
             s = data.call_site;
         }
@@ -260,6 +265,15 @@ impl<'tcx> Cx<'tcx> {
                     // statics referenced by pointer constants, strings, ZSTs, ...
                     let d = with_no_trimmed_paths!(format!("{}", c));
                     let _ = write!(o, ",\"dbg\":{}", esc(&d));
+                    if let Const::Unevaluated(uv, _) = c {
+                        if let Some(pi) = uv.promoted {
+                            let _ = write!(
+                                o,
+                                ",\"promoted\":{}",
+                                esc(&format!("{}::promoted[{}]", self.path(uv.def), pi.as_usize()))
+                            );
+                        }
+                    }
                     if let Const::Val(rustc_middle::mir::ConstValue::Scalar(
                         rustc_middle::mir::interpret::Scalar::Ptr(ptr, _),
                     ), _) = c
@@ -416,6 +430,19 @@ impl<'tcx> Cx<'tcx> {
             return None;
         }
         let body: &Body<'tcx> = tcx.optimized_mir(did);
+        let path = self.path(did);
+        let mut out = self.body_of(did, kind, body, &path);
+        let promoted = tcx.promoted_mir(did);
+        for (pi, pb) in promoted.iter_enumerated() {
+            let pp = format!("{}::promoted[{}]", path, pi.as_usize());
+            out.push_str(",\n");
+            out.push_str(&self.body_of(did, "Promoted", pb, &pp));
+        }
+        Some(out)
+    }
+
+    fn body_of(&mut self, did: DefId, kind: &str, body: &Body<'tcx>, path: &str) -> String {
+        let tcx = self.tcx;
         let mut o = String::new();
         let (file, line, _) = self.span_s(tcx.def_span(did));
         let parent = tcx.opt_parent(did).map(|p| self.path(p));
@@ -441,7 +468,7 @@ impl<'tcx> Cx<'tcx> {
         let _ = write!(
             o,
             "{{\"path\":{},\"kind\":{},\"parent\":{},\"impl_of\":{},\"impl_trait\":{},\"abi\":{},\"file\":{},\"line\":{},\"argc\":{},\"locals\":[",
-            esc(&self.path(did)),
+            esc(path),
             esc(kind),
             match parent {
                 Some(p) => esc(&p),
@@ -645,7 +672,7 @@ impl<'tcx> Cx<'tcx> {
             o.push('}');
         }
         o.push_str("]}");
-        Some(o)
+        o
     }
 
     fn adt(&mut self, did: DefId) -> String {
@@ -721,13 +748,6 @@ impl Callbacks for Cb {
                         bodies.push(b);
                     }
                 }
-                DefKind::Closure => {
-                    if tcx.is_closure_like(did) {
-                        if let Some(b) = cx.body(did, "Closure") {
-                            bodies.push(b);
-                        }
-                    }
-                }
                 DefKind::Static { mutability, .. } => {
                     let t = tcx.type_of(did).instantiate_identity().skip_norm_wip();
                     let (file, line, _) = cx.span_s(tcx.def_span(did));
@@ -766,6 +786,16 @@ impl Callbacks for Cb {
                     ));
                 }
                 _ => {}
+            }
+        }
+        // closures are not among the HIR item definitions: take them from the MIR keys
+        let mut keys: Vec<DefId> = tcx.mir_keys(()).iter().map(|l| l.to_def_id()).collect();
+        keys.sort_by_key(|d| (d.krate.as_u32(), d.index.as_u32()));
+        for did in keys {
+            if tcx.def_kind(did) == DefKind::Closure && tcx.is_closure_like(did) {
+                if let Some(b) = cx.body(did, "Closure") {
+                    bodies.push(b);
+                }
             }
         }
         let mut adts: Vec<String> = Vec::new();
